@@ -67,6 +67,11 @@ type PgDB struct {
 	// answering statement n (relay oracle, C12).
 	ExtraBefore map[int][]pgproto3.BackendMessage
 	stmtCount   int
+	// MySQL switches literal semantics to MySQL's: X'..' is a hexadecimal literal and a
+	// string literal stored into a binary column is taken as it is (mydb.go serves the wire protocol).
+	MySQL bool
+	// MyDeprecateEOF: the simulated MySQL server offers CLIENT_DEPRECATE_EOF.
+	MyDeprecateEOF bool
 }
 
 // NewPgDB makes an empty database.
@@ -355,6 +360,13 @@ type value struct {
 }
 
 // toCell converts an evaluated value to the canonical stored form of a column.
+func (db *PgDB) toCell(typ string, v value) ([]byte, error) {
+	if db != nil && db.MySQL && !v.null && !v.binary && typ == TBytea {
+		return append([]byte{}, v.b...), nil
+	}
+	return toCell(typ, v)
+}
+
 func toCell(typ string, v value) ([]byte, error) {
 	if v.null {
 		return nil, nil
@@ -438,6 +450,13 @@ func (e *evalCtx) eval(n *pg_query.Node) (value, error) {
 		case *pg_query.A_Const_Sval:
 			return value{b: []byte(v.Sval.Sval)}, nil
 		case *pg_query.A_Const_Bsval:
+			if e.db != nil && e.db.MySQL && len(v.Bsval.Bsval) > 0 && (v.Bsval.Bsval[0] == 'x' || v.Bsval.Bsval[0] == 'X') {
+				raw, err := hex.DecodeString(v.Bsval.Bsval[1:])
+				if err != nil {
+					return value{}, fmt.Errorf("incorrect hexadecimal literal")
+				}
+				return value{b: raw, binary: true}, nil
+			}
 			return value{b: []byte(v.Bsval.Bsval)}, nil
 		case *pg_query.A_Const_Boolval:
 			if v.Boolval.Boolval {
@@ -562,11 +581,11 @@ func (e *evalCtx) cond(n *pg_query.Node) (bool, error) {
 		if l.null || r.null {
 			return false, nil
 		}
-		lc, err := canon(typ, l)
+		lc, err := e.db.canon(typ, l)
 		if err != nil {
 			return false, err
 		}
-		rc, err := canon(typ, r)
+		rc, err := e.db.canon(typ, r)
 		if err != nil {
 			return false, err
 		}
@@ -582,7 +601,7 @@ func (e *evalCtx) cond(n *pg_query.Node) (bool, error) {
 }
 
 // canon brings a value to canonical bytes of a type (column values already are).
-func canon(typ string, v value) ([]byte, error) {
+func (db *PgDB) canon(typ string, v value) ([]byte, error) {
 	if v.binary && typ != TInt4 && typ != TInt8 {
 		return v.b, nil
 	}
@@ -591,7 +610,7 @@ func canon(typ string, v value) ([]byte, error) {
 			return v.b, nil
 		}
 	}
-	return toCell(typ, v)
+	return db.toCell(typ, v)
 }
 
 func relName(rv *pg_query.RangeVar) string { return strings.ToLower(rv.Relname) }
@@ -820,7 +839,7 @@ func (db *PgDB) exec(sql string, params [][]byte, formats []int16) *pgResult {
 				if err != nil {
 					return fail(err)
 				}
-				cell, err := toCell(t.Cols[ci].Type, v)
+				cell, err := db.toCell(t.Cols[ci].Type, v)
 				if err != nil {
 					return fail(err)
 				}
@@ -876,7 +895,7 @@ func (db *PgDB) exec(sql string, params [][]byte, formats []int16) *pgResult {
 					newRow[ci] = v.b
 					continue
 				}
-				cell, err := toCell(t.Cols[ci].Type, v)
+				cell, err := db.toCell(t.Cols[ci].Type, v)
 				if err != nil {
 					return fail(err)
 				}
